@@ -122,7 +122,6 @@ def leg(run, quick):
         if d:
             diffs.append({'rec': rec, 'difference': d})
     out['l2'] = {'records': n, 'conform': n - len(diffs), 'differ': len(diffs), 'first_differences': diffs[:3]}
-    run.notes['beyond_property'] = out
     if r.violated or diffs:
         print('BEYOND-PROPERTY: ParamMw.tla (parameter/context middlewares): %s' %
               ('TLC invariant %s violated' % r.violated if r.violated else '%d of %d replayed records differ, e.g. %s'
